@@ -75,6 +75,9 @@ def inet_sock():
         lport=port(), rport=port(),
         state=st.integers(1, 11),
         holders=st.lists(holder(), max_size=4, unique=True),
+        # a socket no longer attached to a file (TIME_WAIT, SYN_RECV, orphaned
+        # FIN_WAIT): the kernel prints inode 0 for every one of them
+        orphan=st.sampled_from([False, False, True]),
     ))
 
 
@@ -177,6 +180,9 @@ def build(case):
         if key in seen:
             continue  # rows are compared as sets: keep socket tuples unique
         seen.add(key)
+        if s.get("orphan"):
+            inet.append(dict(s, inode=0, holders=[]))
+            continue
         inode += 1
         inet.append(dict(s, inode=inode))
     unix = []
@@ -332,6 +338,9 @@ def run_case(case):
                 labels.add("v4-mapped")
         if s["lport"] == 0 or s["rport"] == 0:
             labels.add("port0")
+    for tbl in {(s["fam"], s["proto"]) for s in inet}:
+        if sum(1 for s in inet if (s["fam"], s["proto"]) == tbl and s["inode"] == 0) >= 2:
+            labels.add("several-inode0-rows-in-one-table")
     for s in inet + unix:
         vis = [h for h in s["real_holders"] if h[0] not in unreadable]
         if len({p for p, _ in vis}) >= 2:
@@ -352,7 +361,7 @@ def run_case(case):
     feat = labels - {"kind=" + kind}
     nontrivial = (",".join(sorted(feat)) + "|" + kind) if feat & {
         "ipv6", "v4-mapped", "shared-holder", "ownerless", "unix-path-space",
-        "unix-abstract"} else None
+        "unix-abstract", "several-inode0-rows-in-one-table"} else None
     return Result(sorted(labels), nontrivial)
 
 
